@@ -46,7 +46,7 @@ static void work_tr(long lo, long hi, struct res *r, void *arg) {
         uint64_t B0 = polyseed_get_birthday(s), want = R_EPOCH + (uint64_t)k * R_STEP; r->cases++; r->calls += 2;
         int bad = (B0 != want);
         /* the clock reads something else by the time the seed is restored: earlier, pre-epoch, the error value, later */
-        { static const uint64_t LATER[4] = { R_EPOCH + 3, 12345, UINT64_MAX, R_EPOCH + 1023 * R_STEP + 7 }; E.clock[0] = LATER[k & 3]; }
+        { static const uint64_t LATER[4] = { R_EPOCH + 3, 12345, UINT64_MAX, R_EPOCH + 1023 * R_STEP + 7 }; E.clock[0] = LATER[(k + 3) & 3];      /* month index 0 meets the clock of the last month: "no birthday yet" is not a value */ }
         uint8_t st[32]; polyseed_store(s, st); polyseed_data *d = NULL;
         if (polyseed_load(st, &d) != POLYSEED_OK || polyseed_get_birthday(d) != B0) bad |= 2; if (d) polyseed_free(d);
         r->calls += 4;
